@@ -3,6 +3,7 @@ package main
 import (
 	"fmt"
 	"go/token"
+	"go/types"
 	"sort"
 	"strings"
 
@@ -553,4 +554,101 @@ func ruleC08AliasNesting(c *Ctx) {
 		why = append(why, fmt.Sprintf("iteration paths: inner array=%d row=%d", nArr, nRow))
 	}
 	c.Check(len(why) == 0, "c08.alias-nesting", "ProcessAlias", c.P.Pos(f.Pos()), "inner arrays recurse with the same alias; rows are wrapped", strings.Join(uniq(why), "; "))
+}
+
+func init() { register("C08", ruleC08InnerNonNull) }
+
+// ruleC08InnerNonNull: an inner array whose rows were all filtered out is still an array in the result.
+func ruleC08InnerNonNull(c *Ctx) {
+	c.Doc("c08.inner-array-nonnull", "the result of an inner array is an array even when none of its rows survive: exec's window yields a nil slice when the offset is past the end (and for an empty inner array), so somewhere between the nested run and the result that typed nil is replaced by an empty array — decided as: in the projection's []any arm (ExecSelect) or in exec's own []any arm, every append of an inner result onto the output is either a freshly made slice or happens on a path that has tested that very slice value against nil, and a path that takes the fresh slice exists (a test of the boxed `any` against nil does not count: a typed nil slice inside an interface is not nil)")
+	normalises := func(f *ssa.Function, inner func(t *Term) bool) (bool, string) {
+		paths, err := WalkFunc(f, WalkCfg{MaxVisits: 2, MaxPaths: 8000})
+		if err != nil {
+			return false, err.Error()
+		}
+		sawFresh, bad, n := false, "", 0
+		for _, p := range paths {
+			for _, e := range p.Effects {
+				if e.Kind != "call" || e.Callee != "builtin:append" || len(e.Args) != 2 || e.Args[1].Op != "varargs" || len(e.Args[1].Args) != 1 {
+					continue
+				}
+				x := e.Args[1].Args[0]
+				if isFreshSliceTerm(x) {
+					// the replacement: taken on a path that found the inner result nil
+					for i := 0; i < e.NAsg && i < len(p.Order); i++ {
+						if y, isN := isNilTest(p.KeyTerm[p.Order[i]]); isN && (inner(y) || y.Op == "ext" && len(y.Args) == 1 && y.Args[0].Op == "assertok" && inner(y.Args[0].Args[0])) {
+							if v, _ := p.Assumed(p.Order[i]); v {
+								sawFresh = true
+							}
+						}
+					}
+					continue
+				}
+				if !inner(x) {
+					continue
+				}
+				n++
+				tested := false
+				for i := 0; i < e.NAsg && i < len(p.Order); i++ {
+					kt := p.KeyTerm[p.Order[i]]
+					viaAssert := func(y *Term) bool {
+						return y.Op == "ext" && len(y.Args) == 1 && y.Args[0].Op == "assertok" && y.Args[0].Name == "[]any" && y.Args[0].Args[0].String() == x.String()
+					}
+					if y, isN := isNilTest(kt); isN && y.Typ != nil && (y.String() == x.String() || viaAssert(y) && y.Name == "0") {
+						if _, isSlice := y.Typ.Underlying().(*types.Slice); isSlice {
+							if v, assumed := p.Assumed(p.Order[i]); assumed && !v {
+								tested = true
+							}
+						}
+					}
+					// the boxed value is not an array at all on this path
+					if kt != nil && viaAssert(kt) && kt.Name == "1" {
+						if v, assumed := p.Assumed(p.Order[i]); assumed && !v {
+							tested = true
+						}
+					}
+				}
+				if !tested {
+					bad = "an inner result is appended at " + c.P.Pos(e.Instr.Pos()) + " without having been tested against nil as a slice"
+				}
+			}
+		}
+		if bad != "" {
+			return false, bad
+		}
+		if n == 0 || !sawFresh {
+			return false, "no replacement of a nil inner result by an empty array"
+		}
+		return true, ""
+	}
+	var whys []string
+	ok := false
+	if f := c.P.Func(modPath, "ExecSelect"); f != nil {
+		c.Fn("ExecSelect")
+		good, why := normalises(f, func(t *Term) bool {
+			return t != nil && t.Op == "ext" && t.Name == "0" && t.Args[0].Op == "assertok" && t.Args[0].Name == "[]any"
+		})
+		if good {
+			ok = true
+		} else {
+			whys = append(whys, "ExecSelect: "+why)
+		}
+	}
+	if exec := c.P.Method(modPath, "Query", "exec"); exec != nil && !ok {
+		if scan := c.findExecScan(exec); scan != nil {
+			good, why := normalises(scan.fn, func(t *Term) bool {
+				if t == nil {
+					return false
+				}
+				s := t.String()
+				return strings.Contains(s, ".execAndPostProcess(") || strings.Contains(s, ").exec(")
+			})
+			if good {
+				ok = true
+			} else {
+				whys = append(whys, funcName(scan.fn)+": "+why)
+			}
+		}
+	}
+	c.Check(ok, "c08.inner-array-nonnull", "inner-result", "-", "a nil inner result is replaced by an empty array before it enters the output", "an inner array that keeps none of its rows comes back as null instead of []: the result loses the nesting of the source ("+strings.Join(whys, "; ")+")")
 }
